@@ -7,7 +7,7 @@ PROP = 'C14'
 STEP_KINDS = ['rewrite', 'assign-value', 'assign-units', 'rename', 'origin-ref', 'cast-dtype', 'add-objects',
               'add-nf-data', 'other-window', 'other-chunks', 'other-data', 'other-data-dtype', 'other-data-width', 'foreign-same-names', 'foreign-colliding-values',
               'hc-mode-around', 'param-values', 'clear-channel-units', 'change-channel-units', 'assign-other-kind',
-              'rename-then-reuse-name', 'rejected-add-then-same-name']
+              'rename-then-reuse-name', 'rejected-add-then-same-name', 'assign-derived-attr']
 META = {
     'level': 'exploration',
     'rule': ('one evaluation = one history (foreign files built and written, the target file built, written, mutated and '
@@ -155,6 +155,20 @@ def make_phase(r, kind, ops_so_far, base, avoid):
             cands = [(i, o) for i, o in objs if o['op'] in ('frame', 'no_format', 'zone', 'axis')] or cands
         i, o = r.choice(cands)
         ph['ops'].append({'op': 'setattr', 'target': i, 'field': 'name', 'value': 'RENAMED-%d' % i})
+    elif kind == 'assign-derived-attr':
+        # attributes the library derives from the data when they are left alone (frame index bounds and spacing, channel
+        # element limit) are given explicitly AFTER a write that derived them
+        byname = {}
+        for i, o in objs:
+            byname.setdefault(o['name'], i)
+        which = r.choice(['frame-index', 'frame-index', 'element-limit'])
+        if which == 'frame-index' and 'K-FRAME' in byname:
+            for kw in r.sample(['index_min', 'index_max', 'spacing'], r.choice([1, 2, 3])):
+                ph['ops'].append({'op': 'assign', 'target': byname['K-FRAME'], 'target_op': 'frame', 'kw': kw, 'part': 'value',
+                                  'value': r.choice([-5, 0, 7.5, 100]), 'via': r.choice([None, 'set_attributes'])})
+        elif 'K-CURVE' in byname:
+            ph['ops'].append({'op': 'assign', 'target': byname['K-CURVE'], 'target_op': 'channel', 'kw': 'element_limit', 'part': 'value',
+                              'value': [r.choice([2, 3, 8])]})
     elif kind == 'rename-then-reuse-name':
         # an object gets another name, then its former name is given to a new object of the same type and set; the final
         # specification (what the fresh interpreter builds) simply has the two objects under their final names
